@@ -123,6 +123,8 @@ func runTrace() {
 		}
 		p := cpuh.NewPrimary(mem)
 		p.Set(c.regs)
+		latch := []byte{1, 1, 2, 3, 0}[i%5] // a trace line may be written while an interrupt is pending
+		p.CPU.Interrupt = latch
 		var line string
 		func() {
 			defer func() {
@@ -133,8 +135,8 @@ func runTrace() {
 			line = string(p.CPU.DisassembleCurrentPC(nil))
 		}()
 		n++
-		if p.Get().Canon() != c.regs.Canon() || len(mem.Writes) != 0 {
-			viol("disassembling changed the CPU or wrote memory (primary)", c.regs.Canon(), p.Get().Canon()+"|"+mem.WritesCanon())
+		if p.Get().Canon() != c.regs.Canon() || len(mem.Writes) != 0 || p.CPU.Interrupt != latch {
+			viol(fmt.Sprintf("disassembling changed the CPU, the interrupt latch (%d -> %d) or wrote memory (primary)", latch, p.CPU.Interrupt), c.regs.Canon(), p.Get().Canon()+"|"+mem.WritesCanon())
 		}
 		got := canonPrimary(line)
 		// oracles on the parsed line, from the interpreter itself
@@ -206,6 +208,7 @@ func runTrace() {
 		}
 		pa := cpuh.NewAlt(memA)
 		pa.Set(c.regs)
+		pa.CPU.Interrupt = latch
 		var short string
 		var long bytes.Buffer
 		func() {
@@ -217,7 +220,7 @@ func runTrace() {
 			short = pa.CPU.Disassemble(pa.CPU.PC)
 			pa.CPU.DisassembleCurrentPC(&long)
 		}()
-		if pa.Get().Canon() != c.regs.Canon() || len(memA.Writes) != 0 {
+		if pa.Get().Canon() != c.regs.Canon() || len(memA.Writes) != 0 || pa.CPU.Interrupt != latch {
 			viol("disassembling changed the CPU or wrote memory (alt)", c.regs.Canon(), pa.Get().Canon())
 		}
 		if replies != nil {
